@@ -379,6 +379,21 @@ pub fn cases(tier: Tier) -> Vec<Case> {
                             v.push(mk(format!("text:{t}:{pos}")));
                         }
                     }
+                    // text keys that differ from a member's name only in letter case, or by an
+                    // underscore spelling: unknown keys like any other
+                    for (name, _, _) in &table {
+                        let snake: String = name.chars().flat_map(|c| if c.is_ascii_uppercase() { vec!['_', c.to_ascii_lowercase()] } else { vec![c] }).collect();
+                        let mut cap = name.to_string();
+                        if let Some(f) = cap.get_mut(0..1) {
+                            f.make_ascii_uppercase();
+                        }
+                        for variant_name in [name.to_uppercase(), name.to_lowercase(), cap, snake] {
+                            if variant_name != *name && !variant_name.contains(':') {
+                                v.push(mk(format!("text:{variant_name}:{n_present}")));
+                                v.push(mk(format!("text:{variant_name}:0")));
+                            }
+                        }
+                    }
                     for (_, k, req) in &table {
                         for shift in [8u32, 16, 32] {
                             if present(*k) {
@@ -467,7 +482,7 @@ pub fn run(ctx: &Ctx) -> Result<Run, String> {
     }
     let mut run = Run::from_stats(
         "exploration",
-        "for each of the six CTAP2 message types: all presence patterns of the optional members x 4 nested-value variants (one with repeated entries in every list, one with every nested optional structure and list present but empty; plus a variant with byte-string members of more than 4 KiB), serialised with ciborium and inspected as a generic CBOR value (one map spanning all serialised bytes; keys = the specification's integers for the present members, ascending, no nulls), round-tripped; mutations of the encodings: every integer key 0..255 not assigned to a member inserted (every position for the full pattern, at the end otherwise; all positions in thorough) with int/map/bytes values, unknown text keys at every position, each required member removed or moved to a key of 2, 3 or 5 bytes with the same low byte (must be an error), each present member repeated under such a wide key with another value (ignored or rejected, never taken), each present member duplicated, options omitted / empty; all 256 status bytes converted both ways and injected as lookup failure under Client::authenticate. Every case is distinct",
+        "for each of the six CTAP2 message types: all presence patterns of the optional members x 4 nested-value variants (one with repeated entries in every list, one with every nested optional structure and list present but empty; plus a variant with byte-string members of more than 4 KiB), serialised with ciborium and inspected as a generic CBOR value (one map spanning all serialised bytes; keys = the specification's integers for the present members, ascending, no nulls), round-tripped; mutations of the encodings: every integer key 0..255 not assigned to a member inserted (every position for the full pattern, at the end otherwise; all positions in thorough) with int/map/bytes values, unknown text keys at every position (also case and underscore variants of every member name), each required member removed or moved to a key of 2, 3 or 5 bytes with the same low byte (must be an error), each present member repeated under such a wide key with another value (ignored or rejected, never taken), each present member duplicated, options omitted / empty; all 256 status bytes converted both ways and injected as lookup failure under Client::authenticate. Every case is distinct",
         true,
         stats,
     );
